@@ -721,3 +721,71 @@ void h_sort_rows(void)
 sort_rows_u.unwindset = [(r'for\s*\(\s*ptrdiff_t i\b', 'NMAX+1')]
 
 UNITS = [transpose, sort_row, sort_row_safety, pointwise, sum_u, spgemm_saad, scale_u, sort_rows_u]
+
+# ---------------------------------------------------------------- transpose: values are ADJOINTS (UF model)
+# The ring unit above (int32) has adjoint = identity, so it cannot see whether math::adjoint is applied to the values
+# (it matters for complex and block values: seeded change C02d).  Here the values are opaque tokens and adjoint is an
+# uninterpreted function: every stored entry (i,j) of a duplicate-free A appears exactly once in T as (j,i) with the
+# value math::adjoint(a_ij).
+SPEC_TRANSPOSE_ADJ = r'''
+static _Bool no_duplicates(const crs *A)
+{
+  for (size_t i = 0; i < NMAX; ++i) for (size_t j = 0; j < NMAX; ++j)
+    if (i < A->nrows && j < A->ncols && count_in_row(A, i, j) > 1) return 0;
+  return 1;
+}
+/* the value stored at (i,j) (duplicate-free matrix), or has = 0 */
+static V entry_val(const crs *A, size_t i, size_t j, _Bool *has)
+{
+  V v = 0; *has = 0;
+  for (size_t k = 0; k < CAP_NNZ; ++k)
+    if ((ptrdiff_t)k >= A->ptr[i] && (ptrdiff_t)k < A->ptr[i + 1] && (size_t)A->col[k] == j) { v = A->val[k]; *has = 1; }
+  return v;
+}
+static _Bool post_transpose_adjoint(const crs *A, const crs *T)
+{
+  for (size_t i = 0; i < NMAX; ++i) for (size_t j = 0; j < NMAX; ++j)
+    if (i < A->nrows && j < A->ncols) {
+      _Bool ha, ht; V a = entry_val(A, i, j, &ha); V t = entry_val(T, j, i, &ht);
+      if (ha != ht) return 0;
+      if (ha && t != math_adjoint(a)) return 0;     /* conjugate transpose of the value, not a plain copy */
+    }
+  return 1;
+}
+'''
+transpose_adjoint = Unit(
+    name='builtin_transpose_adjoint', props=['C08', 'C03', 'C02', 'C10'],
+    functions=['backend::transpose(const crs<V,C,P>&)'],
+    desc='transpose stores math::adjoint of every value (conjugate transpose for complex / block values): uninterpreted adjoint, duplicate-free input',
+    cuts=dict(crs_member_cuts(), body=Cut(
+        BUILTIN, r'std::shared_ptr< crs<V,C,P> > transpose\(const crs<V, C, P> &A\)\s*(?=\{)',
+        rules=CALL_RULES + [
+            Rule(r'auto T = std_make_shared< crs<V,C,P> >\(\);', 'crs *T = crs_new();', 1),
+            IdxRule(r'T->col|T->val', 'T->nnz', '+'),
+            IdxRule(r'T->ptr', 'T->nrows + 1', '+'),
+        ])),
+    template='#define MODEL_UF 1\n#define CXC_UF_T unsigned short\n' + BOUNDED_PRELUDE + CRS_MEMBERS_C + SPEC_TRANSPOSE_ADJ + r'''
+crs *f_transpose(const crs *A_p)
+{
+#define A (*A_p)
+/*@CUT:body@*/
+#undef A
+}
+void h_transpose_adj(void)
+{
+  crs *A = crs_input();
+  REQUIRES(crs_wf(A, NMAX, NMAX, ZMAX) && no_duplicates(A));
+  crs *T = f_transpose(A);
+  ENSURES(!g_cap_exceeded, "bound artefact: allocation within verification capacity");
+  ENSURES(T->nrows == A->ncols && T->ncols == A->nrows && crs_wf(T, NMAX, NMAX, ZMAX), "transpose: well-formed result with swapped dimensions");
+  ENSURES(post_transpose_adjoint(A, T), "transpose: entry (j,i) of the result is math::adjoint of entry (i,j) of the input, and nothing else is stored");
+  CANARY("harness.end");
+}
+''',
+    entry='h_transpose_adj', mode='unwound', unwind='max(ZMAX,NMAX)+3', model='uf',
+    variants=[{'NMAX': 3, 'ZMAX': 3}], thorough_variants=[{'NMAX': 3, 'ZMAX': 4}],
+    bound_text='all duplicate-free matrices with rows, cols <= 3, nnz <= 3 (thorough 4); values opaque 16-bit tokens',
+    assumptions=A_BOUNDED + ['A-uf16: value tokens are 16 bit wide; tokens are only compared with == and fed to uninterpreted functions (EUF small-model property)'],
+    timeout=600,
+)
+UNITS.append(transpose_adjoint)
